@@ -28,26 +28,31 @@ GEN = dict(inplace=True, p_inplace=0.12, p_view=0.4, p_fail=0.0, p_const=0.08, n
 
 
 def label_view(b_arr, v_arr):
-    """for every element of the view `v_arr` of `b_arr`: its logical (C-order) flat index in `b_arr`; None if the
-    layout of b_arr is not a plain C-contiguous block"""
-    if not (b_arr.flags.c_contiguous and b_arr.base is None):
-        return None
-    bp = b_arr.__array_interface__["data"][0]
-    vp = v_arr.__array_interface__["data"][0]
-    labels = np.arange(b_arr.size, dtype=np.int64)
-    scale = 8 // b_arr.itemsize if b_arr.itemsize <= 8 else None
-    if b_arr.itemsize != 8:
+    """for every element of the view `v_arr` of `b_arr`: its logical (C-order) flat index in `b_arr`; None if b_arr
+    is not an owning array that is contiguous in some axis order (C, Fortran, any 'K' layout)"""
+    if b_arr.base is not None or b_arr.itemsize != 8:
         return None
     if v_arr.size == 0:
         return np.zeros(v_arr.shape, dtype=np.int64)
-    return np.ndarray(shape=v_arr.shape, dtype=np.int64, buffer=labels, offset=vp - bp, strides=v_arr.strides).copy()
+    labels = np.empty_like(b_arr, dtype=np.int64)  # same memory layout as b_arr
+    if labels.strides != b_arr.strides:
+        return None
+    labels[...] = np.arange(b_arr.size, dtype=np.int64).reshape(b_arr.shape)
+    mem = labels.ravel(order="K")  # the memory image (a view: `labels` is contiguous in its axis order)
+    if not np.shares_memory(mem, labels):
+        return None
+    bp = b_arr.__array_interface__["data"][0]
+    vp = v_arr.__array_interface__["data"][0]
+    return np.ndarray(shape=v_arr.shape, dtype=np.int64, buffer=mem, offset=vp - bp, strides=v_arr.strides).copy()
 
 
-def check_views(tensors):
-    """the property's predicate on a dict name -> Tensor after a backward"""
+def check_views(tensors, only=None):
+    """the property's predicate on a dict name -> Tensor after a backward (`only`: the views to examine)"""
     fails = []
     names = sorted(tensors)
     for n in names:
+        if only is not None and n not in only:
+            continue
         v = tensors[n]
         b = v.base
         if b is None or b.constant or v.constant:
@@ -94,6 +99,70 @@ def oracle(prog, idx):
     if res[-1] != "ok":
         return []
     return check_views(ex.v)
+
+
+def check_epoch_views(tensors, fresh):
+    """The predicate for views created in the current epoch, with the base found by walking the chain of view
+    operations *recorded in this epoch* (not by trusting `.base`): for w in `fresh`, follow creator.variables[0] while
+    the tensor is a fresh view; the tensor reached is w's base in this epoch if it owns its memory (base None)."""
+    fails = []
+    for n in sorted(fresh):
+        w = tensors.get(n)
+        if w is None or w.base is None or w.constant:
+            continue
+        p, m, ok = w, n, True
+        for _ in range(64):
+            if p.base is None:
+                break
+            name = next((k for k, t in tensors.items() if t is p), None)
+            if name not in fresh or p.creator is None:
+                ok = False
+                break
+            p = p.creator.variables[0]
+            if p.constant:
+                ok = False
+                break
+        if not ok or p.base is not None or p is w:
+            continue
+        b = p
+        bn = next((k for k, t in tensors.items() if t is b), "?")
+        if not np.shares_memory(w.data, b.data) and w.size:
+            continue
+        bg, wg = b.grad, w.grad
+        if bg is None:
+            continue
+        if wg is None:
+            fails.append(("epoch-view-grad-none", f"t{n} was made from t{bn} by view operations in this epoch; t{bn}.grad is available but t{n}.grad is None (t{n}.base is t{next((k for k, t in tensors.items() if t is w.base), '?')})"))
+            continue
+        idx = label_view(b.data, w.data)
+        if idx is None:
+            continue
+        exp = np.ravel(bg, order="C")[idx]
+        if wg.shape != w.shape or not np.array_equal(wg, exp):
+            fails.append(("epoch-view-grad-value", f"t{n}.grad = {np.asarray(wg).tolist()} but the view of t{bn}.grad is {exp.tolist()}"))
+        elif w.size and not np.shares_memory(wg, bg):
+            fails.append(("epoch-view-grad-copy", f"t{n}.grad does not share memory with t{bn}.grad"))
+    return fails
+
+
+def oracle_epochs(prog, idx):
+    """multi-epoch histories: after every successful backward, the predicate for the views created since the previous
+    backward / clear_graph (views *within the same graph epoch*; a view left over from an earlier epoch is not examined)"""
+    ex = progs.RealExec()
+    fresh = set()
+    for st in prog:
+        r = ex.step(st)
+        if st[0] in ("view",) and r == "ok":
+            fresh.add(st[1])
+        elif st[0] == "del":
+            fresh.discard(st[1])
+        elif st[0] in ("back", "clear"):
+            if st[0] == "back" and r == "ok":
+                f = check_epoch_views(ex.v, fresh)
+                if f:
+                    return f
+            fresh = set()
+    return []
 
 
 # ------------------------------------------------------------------ every arrival order of the first contribution
@@ -211,6 +280,11 @@ def run(ctx: Ctx) -> Outcome:
                 "every ordering of 1..3 of 9 consumers (so that each contribution arrives first) x 2 seed kinds; (c) the model's "
                 "reshape view-or-copy rule vs NumPy on random strided windows")
     seen = engcheck.report(out, results, "C06", oracle)
+    # multi-epoch histories (several backward / clear_graph / null_grad calls; views of tensors that were views earlier)
+    out2, results2 = engcheck.run_programs(ctx, ctx.n(1200, 5000), dict(GEN, n_stmts=ctx.n(12, 18), multi_back=True, p_inplace=0.06),
+                                           "oracle_epochs", nontrivial, label="epochs:")
+    engcheck.report(out2, results2, "C06", oracle_epochs)
+    out.merge(out2)
     items = []
     for vi in range(len(VIEWS)):
         for k in (1, 2, 3) if ctx.thorough else (1, 2):
@@ -266,7 +340,7 @@ def replay(data) -> bool:
     p = r["program"]
     for st in p:
         print(progs.to_line(st))
-    f = oracle(p, 0)
+    f = (oracle_epochs if str(r.get("class", "")).startswith("epoch-") else oracle)(p, 0)
     print("oracle:", f)
     return bool(f)
 
